@@ -48,7 +48,8 @@ Record Good (F : facts) : Prop := mkGood {
   g_nary : forallb nary_ok (f_nary F) = true;
   g_order : f_ifexp_order F = [CBody; CTest; COrelse];
   g_lib : forallb is_lib (f_lib_parents F) = true;
-  g_attr : forallb attr_ok (f_attr_consts F) = true
+  g_attr : forallb attr_ok (f_attr_consts F) = true;
+  g_rename : f_rename F = RenSimultaneous
 }.
 
 Lemma order_eqb_eq : forall a b, order_eqb a b = true -> a = b.
@@ -66,6 +67,7 @@ Proof.
   destruct (f_compare F) eqn:Ec; try discriminate.
   destruct (f_call_fallback F) eqn:Ef; try discriminate.
   apply andb_prop in H. destruct H as [Ha Hk].
+  destruct (f_rename F) eqn:Er; try discriminate.
   constructor; auto using order_eqb_eq.
 Qed.
 
@@ -669,6 +671,7 @@ Proof.
   intros F HF ufn rho fd args e m v Hs Hc Hv.
   unfold tree_to_sbml in Hc. unfold eval_fn in Hv. unfold single_return in Hs.
   destruct (Nat.eqb (List.length (fd_params fd)) (List.length args)); [|discriminate].
+  unfold rename_body in Hc. rewrite (g_rename F (facts_good_Good F HF)) in Hc.
   rewrite Hs in Hc. cbn [map rename_stmt] in Hc. rewrite handle_body_single in Hc.
   rewrite (eval_body_single _ _ _ _ Hs) in Hv.
   eapply (conv_sound F (facts_good_Good F HF)); eauto using rename_sound.
@@ -813,3 +816,50 @@ Qed.
 Theorem conv_sound_good : forall F, facts_good F = true ->
   forall ufn rho e m v, conv F e = Ok m -> eval_py ufn rho e = Some v -> eval_ml ufn rho m = Some v.
 Proof. intros F HF ufn rho. exact (conv_sound F (facts_good_Good F HF) ufn rho). Qed.
+
+(* ------------------------------------------------------------------------------------- *)
+(** * one renaming pass per pair vs. one simultaneous pass *)
+Lemma assocN_none : forall x mp, ~ In x (map fst mp) -> assocN x mp = None.
+Proof.
+  induction mp as [|[k v] r IH]; cbn; intros H; [reflexivity|].
+  destruct (N.eqb x k) eqn:E; [apply N.eqb_eq in E; subst; tauto|]. apply IH. tauto.
+Qed.
+
+Section Step.
+  Variables p a : N.
+  Variable r : list (N * N).
+  Hypothesis Ha : ~ In a (map fst r).
+
+  Lemma rename_step_all :
+    (forall e, rename r (rename [(p, a)] e) = rename ((p, a) :: r) e)
+    /\ (forall ch, rename_chain r (rename_chain [(p, a)] ch) = rename_chain ((p, a) :: r) ch)
+    /\ (forall es, rename_list r (rename_list [(p, a)] es) = rename_list ((p, a) :: r) es).
+  Proof.
+    apply expr_mutind; intros; cbn [rename rename_chain rename_list]; try reflexivity; try congruence.
+    - (* EName *) cbn [assocN]. destruct (N.eqb x p) eqn:E.
+      + cbn [rename]. now rewrite (assocN_none a r Ha).
+      + reflexivity.
+  Qed.
+End Step.
+
+Theorem rename_seq_simultaneous : forall mp, seq_safe mp -> forall e, rename_seq mp e = rename mp e.
+Proof.
+  induction mp as [|[p a] r IH]; intros Hs e.
+  - cbn [rename_seq]. 
+    assert (H : (forall e, rename [] e = e) /\ (forall ch, rename_chain [] ch = ch) /\ (forall es, rename_list [] es = es)).
+    { apply expr_mutind; intros; cbn [rename rename_chain rename_list assocN]; congruence. }
+    symmetry. apply H.
+  - destruct Hs as [Ha Hr]. cbn [rename_seq]. rewrite (IH Hr). apply (proj1 (rename_step_all p a r Ha)).
+Qed.
+
+Theorem tree_to_sbml_sequential_safe : forall F fd args,
+  seq_safe (combine (fd_params fd) args) ->
+  tree_to_sbml (set_rename RenSequential F) fd args = tree_to_sbml (set_rename RenSimultaneous F) fd args.
+Proof.
+  intros F fd args Hs. unfold tree_to_sbml, rename_body. cbn [f_rename set_rename].
+  destruct (Nat.eqb _ _); [|reflexivity].
+  assert (Hm : forall body, map (rename_stmt_seq (combine (fd_params fd) args)) body = map (rename_stmt (combine (fd_params fd) args)) body).
+  { induction body as [|s r IH]; [reflexivity|]. cbn [map]. rewrite IH. f_equal.
+    destruct s; cbn [rename_stmt_seq rename_stmt]; try reflexivity. now rewrite rename_seq_simultaneous. }
+  rewrite Hm. reflexivity.
+Qed.
